@@ -44,6 +44,11 @@ CHECKS = {
     technique="TLA+ contract machine for the imager geometry with the setters' arithmetic as coded (exact integers, half ticks) model-checked by TLC over all configuration histories; recorded histories on a real PersistenceImager (attributes, output shape, unit-box probes at pixel centres) validated event by event by TLC",
     text="TLC checks SquarePixels, ResTimesPs, PixelSizeKept and Contains for every history of constructor / birth_range / pers_range / pixel_size / fit of length <=3 (thorough 4) over all ranges and pixel sizes within the constants, for the repaired constructor, and reproduces the pre-repair constructor defect at spec level. Seeded histories of up to 10 operations are replayed on a real imager under tick sizes 1, 1/4 (exact) and 0.1, 0.7, 1/3, 0.03 (inexact quotients); after every operation all six public attributes, the transform output shape and uniform-kernel probes (a unit box at a pixel centre must light exactly that pixel) are checked against the contract.",
     note="Attributes are snapped to 1/q half ticks within 1e-9 relative before the integer contract is evaluated; padding placement is not prescribed. The genuine defects found (constructor truncation, int(n*ps/ps)) are repaired in /repo and recorded as fixed."),
+ "C18": dict(
+    cat="model_checking", ref="DESIGN.md 5/C18",
+    technique="TLA+ history machine of the transformers (fit / transform / fit_transform, user-fixed vs learned parameters) model-checked by TLC over all histories; recorded call histories on real estimators validated by TLC with a memo (fitted state, diagram) -> output digest",
+    text="TLC checks RefitForgets, FitTransformIsFitThenTransform, TransformUsesLastFit and the action property TransformKeepsState for all histories of length <=4 (thorough 6) over 3 data sets and every subset of user-fixed start/stop, and refutes the pre-repair keep-first fit in two steps. Seeded interleavings of 3..10 calls over 2..4 data sets (collections of 1..4 diagrams, user-fixed bounds incl. 0, flatten or not, three tick sizes) run on real PersistenceLandscaper and PersistenceImager objects; after every call the public attributes and a digest of every returned array are recorded and TLC walks the history: learned state = F(last fit, user-fixed), transform leaves the state unchanged, equal (state, diagram) give equal output whatever the call style, collections are mapped element by element in order.",
+    note="Outputs enter as 31-bit digests of the exact bytes (a memo clash is a bitwise difference). User-fixed means given to the constructor. The genuine defect found (landscaper keeps the first grid) is repaired in /repo and recorded as fixed."),
 }
 
 NOT_APPLICABLE_REASON = "check under construction in this round; see DESIGN.md section 5"
